@@ -11,11 +11,13 @@ MODULES = {
     'C10': 'c10_blobexchange', 'C11': 'c11_routing', 'C12': 'c12_dht', 'C13': 'c13_wallet',
     'C14': 'c14_reserve', 'C15': 'c15_script', 'C16': 'c16_claimurl', 'C17': 'c17_dhtwire',
     'C18': 'c18_blobbook', 'C19': 'c19_diskclean', 'C20': 'c20_dewies',
+    # growth beyond the listed properties (statements in growth.jsonl; not registered in MANIFEST.json)
+    'G01': 'g01_headersync', 'G02': 'g02_dhtpeer', 'G03': 'g03_reflector', 'G04': 'g04_downloader',
 }
 
 if __name__ == '__main__':
     if len(sys.argv) < 2 or sys.argv[1] not in MODULES:
-        print('usage: check <C01..C20> [--tier quick|thorough] [--replay PATH] [--seed N]')
+        print('usage: check <C01..C20|G01..G04> [--tier quick|thorough] [--replay PATH] [--seed N]')
         sys.exit(2)
     prop = sys.argv[1]
     try:
